@@ -40,7 +40,7 @@ static inline void exc_maybe(void) { if (!g_exc && nondet_bool()) g_exc = 1; }
 /* on an unwinding edge a thread-local list may die holding slots: they are freed, and an item still constructed in one
  * is destroyed through its stored destructor (exactly once: assertion in fnptr_call_dtor).  Which events may be
  * discarded that way is the business of each contract (enqueue: none) */
-static inline void wl_dtor_exc(WList *l) { if (l->w >= 0) { Slot_dtor(&g_S0); g_dead = 1; l->w = -1; } l->len = 0; }
+static inline void wl_dtor_exc(WList *l) { if (l->w >= 0) { Slot_dtor(&g_S0); g_S0.dtor = NULL; /* the node is gone */ g_dead = 1; l->w = -1; } l->len = 0; }
 #undef WLIST_DTOR
 #define WLIST_DTOR(l) wl_dtor_exc(l)
 /* emplace_back allocates */
@@ -64,4 +64,49 @@ static inline void wl_dtor_exc(WList *l) { if (l->w >= 0) { Slot_dtor(&g_S0); g_
                                 (self->queueList.w == __CPROVER_old(self->queueList.len) ==> (g_kind == (KIND) && g_kind_was == (KIND) && g_argid == __CPROVER_old(args->id) && g_event == __CPROVER_old(*first) && SLOT_QUEUED_M))))
 #define CONTRACT_HQ_doEnqueue HQ_ENQ_EXC(1, VArg)
 #define CONTRACT_HQ_doEnqueue__eventpp_ArgumentPassingExcludeEvent_int HQ_ENQ_EXC(2, WArg)
+/* ------------------------------------------------------------------ process / processOne when a listener raises: the exception reaches the caller with no mutex held, the
+ * representation intact, queueEmptyCounter restored (emptiness reporting and waiting stay correct); only events this
+ * call had taken out of the queue are discarded (their nodes die with the local list, their payloads are destroyed
+ * exactly once), every other event is where it was */
+#undef CONTRACT_DispatcherBase_directDispatch
+#undef CONTRACT_DispatcherBase_directDispatch__int_WArg
+#define DD_CONTRACT_EXC(KIND) \
+  __CPROVER_requires(NOLOCKS(QQ) && hq_ok(QQ) && QQ->queueEmptyCounter >= 1 && !g_exc) \
+  __CPROVER_requires(IS_WIT_EV(a0) ==> (g_kind_was == (KIND) && g_disp == 0 && *a0 == g_event && a1->id == g_argid)) \
+  __CPROVER_assigns(ENV_FRAME(QQ), g_exc) \
+  __CPROVER_ensures(NOLOCKS(QQ) && hq_ok(QQ) && HQ_MID(QQ) && g_seq > __CPROVER_old(g_seq)) \
+  __CPROVER_ensures(INFLIGHT_SAME(QQ, (IS_WIT_EV(a0) ? 1 : 0), 0))
+#define CONTRACT_DispatcherBase_directDispatch DD_CONTRACT_EXC(1)
+#define CONTRACT_DispatcherBase_directDispatch__int_WArg DD_CONTRACT_EXC(2)
+#undef CONTRACT_HQ_doDispatchQueuedEvent
+#define CONTRACT_HQ_doDispatchQueuedEvent \
+  __CPROVER_requires(NOLOCKS(self) && hq_ok(self) && HQ_MID(self) && self->queueEmptyCounter >= 1 && !g_exc) \
+  __CPROVER_requires(IS_WIT(item) ==> (g_kind_was != 0 && g_disp == 0 && ITEM_INTACT(item))) \
+  __CPROVER_assigns(ENV_FRAME(self), g_exc) \
+  __CPROVER_ensures(NOLOCKS(self) && hq_ok(self) && HQ_MID(self) && g_seq >= __CPROVER_old(g_seq)) \
+  __CPROVER_ensures(INFLIGHT_SAME(self, (IS_WIT(item) ? 1 : 0), 0))
+#undef LOOP_CONTRACT_HQ_process__loop0
+#define LOOP_CONTRACT_HQ_process__loop0 \
+  __CPROVER_assigns(__begin_L0.i, ENV_FRAME(self), g_exc) \
+  __CPROVER_loop_invariant(0 <= __begin_L0.i && __begin_L0.i <= tempList.len && !g_cur_is_w && !g_exc) \
+  __CPROVER_loop_invariant(NOLOCKS(self) && HQ_OK_M(self) && HQ_MID(self) && self->queueEmptyCounter >= 1) \
+  __CPROVER_loop_invariant(tempList.w >= 0 ==> (INFLIGHT(self) && (tempList.w < __begin_L0.i ? DONE_M : SLOT_QUEUED_M))) \
+  __CPROVER_loop_invariant(g_dead == __CPROVER_loop_entry(g_dead)) \
+  __CPROVER_decreases(tempList.len - __begin_L0.i)
+#undef CONTRACT_HQ_process
+#define CONTRACT_HQ_process \
+  __CPROVER_requires(HQ_FRESH(self)) \
+  __CPROVER_requires(NOLOCKS(self) && hq_ok(self) && HQ_SMALL(self) && ALL_IN_LISTS(self) && !g_cur_is_w && !g_exc) \
+  __CPROVER_assigns(PROC_FRAME, g_exc) \
+  __CPROVER_ensures(NOLOCKS(self) && hq_ok(self) && self->queueEmptyCounter == __CPROVER_old(self->queueEmptyCounter)) \
+  __CPROVER_ensures(!g_exc ==> (g_dead == __CPROVER_old(g_dead) && __CPROVER_return_value == (__CPROVER_old(self->queueList.len) > 0) && (__CPROVER_old(self->queueList.w) >= 0 ==> (DONE_M && self->freeList.w >= 0)))) \
+  __CPROVER_ensures(g_exc ==> ((__CPROVER_old(self->queueList.w) < 0 ==> g_dead == __CPROVER_old(g_dead))))
+#undef CONTRACT_HQ_processOne
+#define CONTRACT_HQ_processOne \
+  __CPROVER_requires(HQ_FRESH(self)) \
+  __CPROVER_requires(NOLOCKS(self) && hq_ok(self) && HQ_SMALL(self) && ALL_IN_LISTS(self) && !g_cur_is_w && !g_exc) \
+  __CPROVER_assigns(PROC_FRAME, g_exc) \
+  __CPROVER_ensures(NOLOCKS(self) && hq_ok(self) && self->queueEmptyCounter == __CPROVER_old(self->queueEmptyCounter)) \
+  __CPROVER_ensures(!g_exc ==> (g_dead == __CPROVER_old(g_dead) && __CPROVER_return_value == (__CPROVER_old(self->queueList.len) > 0) && (__CPROVER_old(self->queueList.w) == 0 ==> (DONE_M && self->freeList.w >= 0)))) \
+  __CPROVER_ensures(g_exc ==> ((__CPROVER_old(self->queueList.w) != 0 ==> g_dead == __CPROVER_old(g_dead))))
 #endif
